@@ -219,6 +219,8 @@ def check(ctx):
         def at_exit_c(kind, st, facts):
             if kind == "return" and st == "popped" and (RQ, True) not in facts:
                 return "receive() returns with a possibly empty queue without clearing the read event (the next call would not wait and report a false EndOfStream)"
+            if kind == "return" and st == "cleared" and (RQ, False) not in facts:
+                return "the read event was cleared but the queue was touched afterwards (a pushed-back remainder would sit in the queue while the next receive() waits for new data)"
             return None
 
         ctx.paths("R18-c", rc, [("pop", f"$C = {RQ}.popleft()"), ("clear", "self._protocol.read_event.clear()")], step_c, "", at_exit_c,
